@@ -14,11 +14,12 @@ from . import common
 
 LEVEL = "proof"
 TRUSTED = ["Model/Ctx.v models the colour context as the only process state the encoder reads; StrategyRegistry (idempotent class-level "
-           "registration) and object aliasing between documents are not in the Gallina model: they are covered by the history runs only",
+           "registration), object aliasing between documents and any state of the string-width measurement (font objects, caches) are not in the "
+           "Gallina model: they are covered by the history runs only (pool documents 15-17: one frame measured in two sizes and two fonts)",
            "harness/hist.py: history interpreter, fresh-process worker, context recorder (monkey-patched from outside /repo)"]
 ASSUMPTIONS = ["histories are executed exactly as quantified (<= 4 prior operations from a fresh interpreter) and then extended by up to 3 target "
                "encodes in the same process; every encode in the log is compared with the fresh-process baseline of its document",
-               "the pool is the fixed 15-document pool of harness/hist.py (figure varies with the seed)"]
+               "the pool is the fixed 18-document pool of harness/hist.py (figure varies with the seed)"]
 
 WORKER = os.path.join(rt.VERIF, "harness", "hist.py")
 
@@ -131,6 +132,12 @@ def run(ctx):
         for b in bad:
             for t in range(P):
                 hs.append([("E", b), ("E", t)])
+        # documents that differ only in the font or size their cells are measured with, in both orders
+        metric = [i for i in (15, 16, 17) if i < P]
+        for a in metric:
+            for b in metric:
+                if a != b:
+                    hs.append([("E", a), ("E", b)])
         jobs = []
         for n, h in enumerate(hs):
             targets = r.sample(range(P), 3)
@@ -197,7 +204,7 @@ def run(ctx):
             f["replay_cmd"] = "./check C14 --replay <this file>"
     coverage = {
         "evaluations": stats["histories"], "distinct_nontrivial": stats["encodes_checked"],
-        "rule": "histories = sequences of construct / encode / encode-twice over the 15-document pool run in a FRESH interpreter each, "
+        "rule": "histories = sequences of construct / encode / encode-twice over the 18-document pool run in a FRESH interpreter each, "
                 "exhaustive for length 1 (and 2 in the thorough tier), sampled for lengths 2-4, plus failing-encode-then-X for every X; "
                 "each followed by 3 target encodes; alternate runs share equal-valued component objects; distinct = encodes compared with the fresh baseline",
         "ops_per_history": {str(k): v for k, v in sorted(lens.items())},
